@@ -62,6 +62,17 @@ theorem jacobian_spec_entry (outs : List Expr) (wrt : List Name) (i j : Nat)
     (jacobianFlat outs wrt)[i * wrt.length + j]? = some ((outs[i]).diff (wrt[j])) :=
   C03.jacobianFlat_get outs wrt i j hi hj
 
+/-- … and that specification entry is the exact partial derivative: whenever output `i` and the entry
+evaluate at a rational point, the entry's value is the `HasDerivAt` derivative of
+`t ↦ outᵢ[wrtⱼ := t]` there -/
+theorem jacobian_spec_is_derivative (env : Env Rat) (outs : List Expr) (wrt : List Name) (i j : Nat)
+    (hi : i < outs.length) (hj : j < wrt.length) (v w : ℚ)
+    (hout : (outs[i]).eval ratSem env = some w)
+    (hval : ((outs[i]).diff (wrt[j])).eval ratSem env = some v) :
+    HasDerivAt (fun t => evalR (Function.update (realEnv env) (wrt[j]) t) (outs[i])) (v : ℝ)
+      (realEnv env (wrt[j])) :=
+  diff_value_is_derivative env _ _ v w hout hval
+
 /-! non-vacuity -/
 example : accessorTable (layout ["z", "a", "M"]) = [("M", 0), ("a", 1), ("z", 2)] := by decide +kernel
 
